@@ -29,7 +29,7 @@ from . import textworker as tw
 # reference rejections that correspond to the structural breakages the property names
 STRUCTURAL = ('unterminated literal', 'illegal escape', 'bad \\u escape', 'raw control character in literal',
               "expected ']'", "expected '>>'", "expected 'ver:'", 'expected id', "expected '\"'", "expected '`'",
-              '3.0-only construct in a 2.0 grid')
+              '3.0-only construct in a 2.0 grid', 'illegal tag name')
 
 GRID_DOCS = {
     'basic2': 'ver:"2.0"\nname,val\n"a b",12.5kW\n"x",N\n',
@@ -45,6 +45,8 @@ C07_DOCS = {
     'dtfix2': 'ver:"2.0"\nt\n2020-07-15T12:00:00-07:00\n2020-01-15T12:00:00-07:00\n2021-11-07T01:30:00+05:45\n',
     'ver25': 'ver:"2.5" a:1\nx\n"s"\n',
     'ver300': 'ver:"3.0.0"\nx\n[1]\nNA\n',
+    'refs': 'ver:"3.0"\nr,s\n@e "",""\n@f "x",`u`\n@g,``\n',
+    'fold': 'ver:"2.0"\nt\n2016-10-30T02:30:00+02:00 Berlin\n2016-10-30T02:30:00+01:00 Berlin\n2021-01-15T08:00:00-03:30 St_Johns\n',
 }
 FILTER_DOCS = {
     'f_and': 'site and equip', 'f_or': 'not ahu or (temp and sensor)', 'f_path': 'siteRef->geoCity == "Chi\\"ca$go"'.replace('$', '\\$'),
